@@ -5,6 +5,7 @@ from common import Env, Machinery, SEED
 from pipeline import extract_conf, mc, calls_from_dump, execute, validate, trace_lines, tokens_of
 from report import Report
 import checks as K
+import wire
 
 REGISTRY = {}
 
@@ -30,6 +31,8 @@ def check_C02(tier):
     env = Env()
     conf = extract_conf(env)
     calls = core_family(rep, env, conf, 'forms', tier, 'C02 family: every naturally typed string (product of value sets) x 10+ constructors')
+    if not Report.redirect:
+        run_driver(rep, env, 'the example Sids of the repository through every constructor', driver_calls(env, tier, ops=('forms',)), 'drv02')
     rep.exhaustive = True
     rep.guard(len([t for t in rep.cover if t.startswith('forms:')]) >= 15 or not calls, 'fewer than 15 types exercised')
     rep.assumptions = ['query round trip only for values without whitespace / URL metacharacters (qsafe tokens)',
@@ -43,6 +46,8 @@ def check_C03(tier):
     env = Env()
     conf = extract_conf(env)
     calls = core_family(rep, env, conf, 'nav', tier, 'C03 family: every typed string x 6 constructors + untyped inputs')
+    if not Report.redirect:
+        run_driver(rep, env, 'the example Sids of the repository navigated (get_as, parent, /, walk)', driver_calls(env, tier, ops=('nav',)), 'drv03')
     rep.exhaustive = True
     rep.guard(any(t.endswith(':untyped') for t in rep.cover) or not calls, 'no untyped navigation exercised')
     rep.guard(len([t for t in rep.cover if t.startswith('nav:')]) >= 8 or not calls, 'not every constructor exercised')
@@ -246,6 +251,8 @@ def check_C05(tier):
                 reverse=True, tag='tp_server')
     path_family(rep, env, conf, 'topath', tier, 'C05 family with the cache capacity reduced to 3 (every call evicts)', first_cfg='local',
                 tag='tp_cap3', cap=3, twice=True)
+    if not Report.redirect:
+        run_driver(rep, env, 'the example Sids of the repository: path in every configuration and back', driver_calls(env, tier, ops=('topath',)), 'drv05')
     rep.exhaustive = True
     rep.guard(len([t for t in rep.cover if t.startswith('topath:')]) >= 12 or not calls, 'fewer than 12 path-bearing types exercised')
     rep.guard('topath:nopath' in rep.cover and 'topath:untyped' in rep.cover or not calls, 'no-path / untyped case not exercised')
@@ -631,3 +638,49 @@ def check_C20(tier):
                        'changed file-name separators and fixed folders, an inserted hierarchy level; each package is imported by the real spil and extracted anew for the specification',
                        'the vacuity guards of the sub-drivers are tuned for the shipped configuration and are not applied here']
     return rep.finish()
+
+
+# ----------------------------------------------------------------------------- code -> spec drivers on realistic / random inputs
+def example_sids(env):
+    p = os.path.join(env.confdir, 'data', 'testing', 'hamlet.sids.txt')
+    if not os.path.exists(p):
+        return []
+    return [l.strip() for l in open(p) if l.strip()]
+
+
+def driver_calls(env, tier, ops=('sid',)):
+    """calls built from the repository's own example Sids and from seeded random strings (junk segments, control
+    characters, search symbols, type prefixes): inputs only - the oracle stays the specification"""
+    rnd = random.Random(SEED + 11)
+    sids = example_sids(env)
+    n_ex = 600 if tier == 'quick' else len(sids)
+    picked = rnd.sample(sids, min(n_ex, len(sids)))
+    calls = []
+    for s in picked:
+        segs = [wire.enc(x) for x in s.split('/')]
+        if 'sid' in ops:
+            calls.append(dict(op='sid', uri=[], segs=segs, query=[]))
+        if 'forms' in ops:
+            calls.append(dict(op='forms', uri=[], segs=segs, query=[], qsafe=all(__import__('re').fullmatch(r'[A-Za-z0-9_.*>,-]+', x) for x in s.split('/')), seed=len(s)))
+        if 'nav' in ops:
+            calls.append(dict(op='nav', uri=[], segs=segs, query=[], via=rnd.choice(['string', 'uri', 'fields_shuffled', 'getwith', 'path']), seed=len(s), foreign=['foo', 'node']))
+        if 'topath' in ops:
+            calls.append(dict(op='topath', segs=segs, uri=[]))
+    if 'sid' in ops:
+        alphabet = ['hamlet', 'a', 's', 'char', 'ophelia', 'model', 'anim', 'v001', 'w', 'p', 'ma', 'mov', 'abc', 'sq010', 'sh0010', '*', '>', '**', '',
+                    'junk', 'x y', 'ham%0Alet', '%09', 'v1', 'V001', 'a,s', 'o*', 'é', '%00', '.', '..']
+        for _ in range(2000 if tier == 'quick' else 40000):
+            n = rnd.choice([0, 1, 1, 2, 3, 4, 5, 6, 7, 8, 8, 9, 10, 12])
+            segs = [rnd.choice(alphabet) for _ in range(n)]
+            uri = rnd.choice([[], [], [], ['asset__file'], [''], ['nosuch'], ['shot__task', 'x']])
+            calls.append(dict(op='sid', uri=uri, segs=[wire.enc(wire.dec(x)) for x in segs], query=[]))
+    return calls
+
+
+def run_driver(rep, env, what, calls, tag):
+    """extract the configuration again with the tokens of the calls, then execute and validate"""
+    toks = set()
+    for c in calls:
+        toks.update(c.get('segs', []))
+    conf2 = extract_conf(env, extra_tokens=sorted(toks), name='conf_%s.json' % tag)
+    K.code_to_spec(rep, env, conf2, calls, what, tag=tag, extra={'SPIL_CONF_JSON': conf2})
